@@ -132,6 +132,7 @@ func init() {
 		ID: "C10", Pkgs: []string{".", "proj"}, Level: "model_checking",
 		Rule: "one evaluation = one explored path (geometry shape x index of the failing vertex, or SR pair x call history); non-trivial = path ends with all assertions discharged",
 		Opts: []HarnessOpt{{Prefix: "VH_C10_", IfConv: true, MaxUnwind: 40}, {Prefix: "VH_C10_history", Mode: "U", IfConv: true, MaxUnwind: 60, MaxSteps: 50_000_000, Merge: projMerge},
+			{Prefix: "VH_C10_history_02", Mode: "U", IfConv: true, MaxUnwind: 60, MaxSteps: 50_000_000, Merge: projMerge, ThoroughOnly: true},
 			{Prefix: "VH_C10_history_03", Mode: "U", IfConv: true, MaxUnwind: 60, MaxSteps: 50_000_000, Merge: projMerge, ThoroughOnly: true},
 			{Prefix: "VH_C10_history_04", Mode: "U", IfConv: true, MaxUnwind: 60, MaxSteps: 50_000_000, Merge: projMerge, ThoroughOnly: true},
 			{Prefix: "VH_C10_history_05", Mode: "U", IfConv: true, MaxUnwind: 60, MaxSteps: 50_000_000, Merge: projMerge, ThoroughOnly: true},
@@ -140,7 +141,7 @@ func init() {
 			{Prefix: "VH_C10_history_10", Mode: "U", IfConv: true, MaxUnwind: 60, MaxSteps: 50_000_000, Merge: projMerge, ThoroughOnly: true}},
 		Bounds: map[string]string{
 			"geometries": "all eight types, <=2 members x <=2 vertices, collections nested to depth 1 (2 thorough); transformer failing at every vertex index or never",
-			"histories":  "quick: longlat<->merc, utm->utm, axis=neu source (t(p); t(p); u(q); t(q); t(p); fresh t(p)) and longlat+7-parameter datum -> WGS84 (t(p); t(p); fresh t(p)); thorough adds lcc, tmerc/utm with 3- and 7-parameter datums (WGS84 hop), aea in US feet",
+			"histories":  "quick: longlat<->merc, axis=neu source (t(p); t(p); u(q); t(q); t(p); fresh t(p)) and longlat+7-parameter datum -> WGS84 (t(p); t(p); fresh t(p)); thorough adds utm->utm, lcc, tmerc/utm with 3- and 7-parameter datums (WGS84 hop), aea in US feet",
 		},
 		Assumptions: []string{"libm functions are uninterpreted symbols: determinism/history-independence proved for every interpretation"},
 		Outside:     []string{"numeric accuracy of the transformers (C08/C09)", "larger geometries"},
@@ -174,7 +175,7 @@ func init() {
 		},
 		Hooks: []HookSpec{{File: "index/rtree/rtree.go", Funcs: []string{"pickSeeds", "pickNext", "assignGroup", "chooseNode"}}},
 		Bounds: map[string]string{
-			"trees": "well-formed trees of height 1 (1..3(4) entries) and height 2 (2 leaves x 1..2 entries; thorough adds 3 leaves), boxes and query point on the signed 3-bit integer grid",
+			"trees": "well-formed trees of height 1 (1..3(4) entries) and height 2 (2 leaves x 1..2 entries; thorough adds 3 leaves), boxes on the signed 2-bit (quick) / 3-bit (thorough) integer grid, query point on the 3-bit / 4-bit grid",
 			"k":     "1..3",
 		},
 		Assumptions: []string{"G mode: squared distances exact; math.Sqrt results are only compared (Lemma S: distinct integers have distinct, ordered rounded roots)", "sort.Sort executed from its real SSA"},
